@@ -159,6 +159,10 @@ def check(ctx):
     from .c02 import open_rule
     open_rule(ctx, R5)
 
+    R6 = ctx.rule("R6", "the key and the certificate are stored at different paths (per-type extension wiring; shared with C02.R5/C13.R3)")
+    from .storage_common import file_identity_rules
+    file_identity_rules(ctx, R6)
+
     R4 = ctx.rule("R4", "no Result<_, Error|HttpError> is discarded on the renewal path (exception: best-effort nonce prefetch in http::post)")
     reach = prog.reach([RC + "::{closure#0}"])
     n = 0
